@@ -92,15 +92,17 @@ var propPlans = []propPlan{
 		Rules:      []string{"CG0", "G2", "G3", "P3", "P6", "P3c", "G17", "P3e", "K5p", "F33", "G2b", "P5c", "P6b", "P3g", "P3h", "P3i", "G2c"},
 		NotDecided: "byte totals per segment.",
 		LevelText:  "Size check before buffering; the window head is dropped whenever the window is over its bound, with its path, its part paths and its file; files released."},
+	{ID: "C19", Title: "LL-HLS parts are regular",
+		Rules:      []string{"CG0", "Q1", "Q2", "Q3", "G10", "G6d", "G4g", "F1", "G4d"},
+		NotDecided: "all the arithmetic: which multiple of the sample duration D is, the 85 % search of findCompatiblePartDuration and its 5 ms step, the upper bound D < 2 x max(PartMinDuration, sample duration) + sample duration, what happens with several sample durations, rounding of PART-TARGET beyond 'up to the millisecond'. Deciding those needs evaluating the code over value ranges (enumeration, symbolic execution): other technique families.",
+		LevelText:  "Thin, structural necessary conditions only: the part switch measures the time elapsed since the open part's own start against a threshold field of the segmenter; that threshold is adjusted before it is compared on the leading track's path; it is at least PartMinDuration by construction (search result that starts at the user's value and only adds non-negative steps); a part starts at the instant the previous one ends, in every stream; PART-TARGET is the maximum over every listed part including the open segment's, rounded up, copied to every rendition. The 85 % / 100 % bounds themselves are value-level and not decided."},
 	{ID: "C20", Title: "Client download pipeline",
 		Rules:      []string{"CG0", "L1", "L4c", "L3c", "K2", "F7", "N3", "L7", "F7b", "F25", "L3d", "L4e", "L3e", "K2b", "L3f", "L3g", "K11", "F7q", "F8c", "F38", "K20", "K2c", "F8d"},
 		NotDecided: "exactly-once as a history property beyond the mutation shapes of the queue.",
 		LevelText:  "Queue state only under its mutex, wake-up channels captured under the lock, signal after change, one throttle between downloads."},
 }
 
-var notApplicable = map[string]string{
-	"C19": "Every clause is a number-theoretic statement about frame duration x PartMinDuration x the 5 ms search of findCompatiblePartDuration; deciding it needs evaluating that arithmetic over value ranges (enumeration or symbolic execution: other technique families). The structural fragments (constants 85/100, the >= of the part switch) are not a necessary-and-diagnostic condition of the 85% bound on their own, so no static proxy is offered.",
-}
+var notApplicable = map[string]string{}
 
 func init() {
 	// deferred: property specs are built after all rules registered (init order across files is
@@ -147,7 +149,7 @@ func cmdManifest() int {
 		Technique    string                 `json:"technique"`
 	}
 	var checks []chk
-	var na []map[string]string
+	na := []map[string]string{}
 	plans := map[string]propPlan{}
 	var ids []string
 	for _, pp := range propPlans {
